@@ -160,8 +160,11 @@ def choose_int_dtype(
     smallest int dtype that can accommodate that range
     """
     output_dtype = None
-    int_min = np.round(x_minmax[0])
-    int_max = np.round(x_minmax[1])
+    # compare in double precision: a float32 extreme such as 2**32
+    # would otherwise be compared with the limits in float32,
+    # where 4294967295 rounds up to 2**32
+    int_min = np.round(np.float64(x_minmax[0]))
+    int_max = np.round(np.float64(x_minmax[1]))
 
     for candidate in (np.uint8, np.int8, np.uint16, np.int16,
                       np.uint32, np.int32, np.uint64, np.int64):
